@@ -178,9 +178,17 @@ def generate(prop, rng, tier):
     iscomplex = np.dtype(leaf['dtype']).kind == 'c'
     nops = rng.randint(4, 8) if big else rng.randint(6, 30)
     ops = [gen_op(rng, npool, isint, iscomplex, struct) for _ in range(nops)]
-    return {'space': cfg, 'thresholds': thresholds, 'npool': npool,
+    plan = {'space': cfg, 'thresholds': thresholds, 'npool': npool,
             'ops': ops, 'garbage': rng.sample(GARBAGE[:5], 2),
             'global_seed': rng.getrandbits(31), 'xseed': rng.getrandbits(32)}
+    if not isint and not iscomplex and rng.random() < 0.12:
+        # "all element values": a few +-inf / NaN entries in the pool (real
+        # floating dtypes only: the entry-wise model is IEEE arithmetic)
+        plan['nf'] = [[rng.randrange(npool), rng.getrandbits(16),
+                       rng.choice(['inf', 'inf', '-inf', 'nan'])]
+                      for _ in range(rng.randint(1, 3))]
+        plan['ops'] = ops[:12]
+    return plan
 
 
 def gen_scalar(rng, isint, iscomplex):
@@ -324,6 +332,11 @@ class Pool(object):
                 self.objs[b] = self.S.element(parts)
         self.x0 = [self._make(self.base, g) for _ in range(2)] \
             if self.base is not None else []
+        for obj, pos, what in plan.get('nf', []):
+            arrs = elem_arrays(self.objs[obj % len(self.objs)])
+            arr = arrs[pos % len(arrs)]
+            if arr.size:
+                arr[np.unravel_index(pos % arr.size, arr.shape)] = float(what)
         dt = np.dtype(cfg['leaf']['dtype'])
         self.isint = dt.kind in 'iu'
         self.mdt = (np.int64 if self.isint else
@@ -471,6 +484,8 @@ def _execute(plan, ctx, th):
             except Reject:
                 continue
             ctx.step()
+        if run.pending is not None:
+            raise run.pending
 
 
 class Run(object):
@@ -478,6 +493,8 @@ class Run(object):
         self.plan, self.pool, self.ctx = plan, pool, ctx
         self.k1, self.k2 = plan['garbage']
         self.th = plan['thresholds']
+        self.nf = bool(plan.get('nf'))
+        self.pending = None
 
     def viol(self, what, site, msg):
         raise Violation('C01', 'C01/{}/{}'.format(what, site), msg)
@@ -555,6 +572,25 @@ class Run(object):
             v, m = model_leaf(kind, Av, Bv, ma, mb, n, mdt)
             exp.append(v)
             mags.append(m)
+        exp_full, fin = exp, None
+        snapA, snapB = Avals, Bvals
+        sameAB = [False] * nleaf
+        if A_obj is not None and B_obj is not None and \
+                opnds[0] in sel and opnds[1] in sel:
+            ka, kb = _keys(A_obj), _keys(B_obj)
+            if len(ka) == len(kb) == nleaf:
+                sameAB = [x_ == y_ for x_, y_ in zip(ka, kb)]
+        if self.nf:
+            # entries all of whose operand entries are finite obey the usual
+            # bounds; the others are compared as IEEE values further down
+            fin = [np.isfinite(Av) & np.isfinite(Bv)
+                   for Av, Bv in zip(Avals, Bvals)]
+            if kind == 'pow' and not all(np.all(m_) for m_ in fin):
+                raise Reject('power of a non-finite entry')
+            Avals = [np.where(m_, Av, 0) for Av, m_ in zip(Avals, fin)]
+            Bvals = [np.where(m_, Bv, 1) for Bv, m_ in zip(Bvals, fin)]
+            exp = [np.where(m_, v, 0) for v, m_ in zip(exp, fin)]
+            mags = [np.where(m_, v, 0) for v, m_ in zip(mags, fin)]
         # representable range of the space's dtype (float16 overflows at 65504,
         # int16 at 32767: intermediate terms have to fit as well)
         ldt = np.dtype(pool.cfg['leaf']['dtype'])
@@ -630,6 +666,11 @@ class Run(object):
                 # entry-wise bound + underflow floor of the element dtype
                 tol = 16 * pool.eps * (mg + np.abs(ev)) + 8 * pool.tiny
                 bad = ~(diff <= tol)
+            if self.nf:
+                q = [id(e_) for e_ in exp].index(id(ev))
+                bad = self._nonfinite(bad, ra, exp_full[q], fin[q], kind, ma,
+                                      mb, snapA[q], snapB[q], sameAB[q], mdt,
+                                      f, op, site)
             if np.any(bad):
                 idx = int(np.argmax(np.where(bad, diff / tol, 0)))
                 self.viol('value', site, self.msg(
@@ -678,6 +719,66 @@ class Run(object):
                              pool.cfg['leaf']['dtype'], pool.cfg['struct'],
                              _sclass(a), _sclass(b) if ',b,' in f else '-',
                              _layout_class(sel, opnds, outsel))
+
+    def _nonfinite(self, bad, ra, ev, fin, kind, ma, mb, A, B, same, mdt, f,
+                   op, site):
+        """Entries with a non-finite operand entry: the result has to be the
+        IEEE value of the entry-wise formula (same NaN pattern, same
+        infinities).  Where a scalar is exactly zero the term may also have
+        been dropped (scaled copy), which the other size regimes do.
+        Returns the mask of entries that remain wrong at *finite* positions;
+        wrong non-finite positions raise (or are parked, see below)."""
+        pool = self.pool
+        nfpos = ~fin
+        if not np.any(nfpos):
+            return bad
+        with np.errstate(all='ignore'):
+            r = ra.astype(mdt)
+
+            def agrees(e):
+                same_nan = np.isnan(r) & np.isnan(e)
+                same_inf = np.isinf(r) & (r == e)
+                both_fin = np.isfinite(r) & np.isfinite(e)
+                d_ok = both_fin & (np.abs(r - e) <= 16 * pool.eps *
+                                   (np.abs(e) + 1) + 8 * pool.tiny)
+                return same_nan | same_inf | d_ok
+
+            ok = agrees(ev)
+            if kind == 'lin' and ma == 0:
+                ok |= agrees(mdt(mb) * B)
+            if kind == 'lin' and mb == 0:
+                ok |= agrees(mdt(ma) * A)
+            if kind == 'lin' and ma == 0 and mb == 0:
+                ok |= (r == 0)
+            if kind == 'lin' and same:
+                # x1 is x2: (a + b) * x1 is the documented simplification
+                ok |= agrees(mdt(ma + mb) * A)
+                if ma + mb == 0:
+                    ok |= (r == 0)
+            if kind == 'lin1' and ma == 0:
+                ok |= (r == 0)
+        wrong = nfpos & ~ok
+        self.ctx.fired('nonfinite-entries', int(np.sum(nfpos)))
+        if np.any(wrong):
+            idx = int(np.argmax(wrong))
+            got, want = np.ravel(ra)[idx], float(np.ravel(ev)[idx])
+            msg = ('{} with a={}, b={} on {}: entry {} is {!r} where the '
+                   'entry-wise formula gives {!r} (operand entries {!r}, {!r})'
+                   ''.format(f, op.get('a'), op.get('b'), self.describe(),
+                             idx, got, want, float(np.ravel(A)[idx]),
+                             float(np.ravel(B)[idx])))
+            scaled_inf = (kind == 'lin1' and ma != 1 and ra.size < self.th[0] and
+                          bool(np.all(np.isnan(r[wrong]) & np.isinf(ev[wrong]))))
+            if scaled_inf:
+                # one root cause (recorded finding): parked so that the rest
+                # of the run is still explored, raised when the run ends
+                if self.pending is None:
+                    self.pending = Violation(
+                        'C01', 'C01/nonfinite/scalar-multiple-of-inf-is-nan/'
+                        'small', msg)
+            else:
+                self.viol('value-nonfinite', site, msg)
+        return bad & fin
 
     def describe(self):
         c = self.pool.cfg
